@@ -158,7 +158,8 @@ def load_unit(name, path, meta=None, defines=(), _align=True):
             # OpenCL C configuration: clang's own OpenCL front end with its builtin declarations; __OPENCL_VERSION__ is what
             # a device compiler defines and what kernel_header.c tests
             cmd = ["clang", "-x", "cl", "-cl-std=CL1.2", "-D__OPENCL_VERSION__=120", "-Xclang", "-finclude-default-header",
-                   "-fsyntax-only", "-Wno-everything", "-Xclang", "-ast-dump=json"] + ["-D%s" % d for d in defines] + [path]
+                   "-fsyntax-only", "-Wno-everything", "-Werror=incompatible-pointer-types", "-Werror=int-conversion",
+                   "-Werror=implicit-function-declaration", "-Xclang", "-ast-dump=json"] + ["-D%s" % d for d in defines] + [path]
             proc = subprocess.run(cmd, capture_output=True)
             break
         cmd = ["clang", "-std=c99", "-nostdinc", "-I", STUBS] + extra_inc + ["-fsyntax-only", "-Wno-everything",
